@@ -9,3 +9,5 @@ const verifOn = false
 type verifState struct{}
 
 func (a *Authenticator) verifEv(ev string, neg *SecurityNegotiation, kv ...any) {}
+
+func verifGate(point, id string) {}
